@@ -157,7 +157,32 @@ def identities(case):
             None, m.tolist())
     require(float(np.trace(m)) == float(acc[1][i]), 'trace(confusion matrix) != accuracy', float(acc[1][i]),
             float(np.trace(m)))
-  return {'evals': len(rows) * 3, 'nontrivial': True, 'outcome': [float(np.sum(acc[1]))]}
+  # single-example statistics merged DIRECTLY with each other (Stat.merge, no zero in front, no reduce): counts add up - also
+  # when several examples fall into the same (target, predicted) cell - and trace / total stays the merged accuracy
+  import jax.numpy as jnp
+  cm_m, acc_m = mr.build({'name': 'ConfusionMatrix', 'num_classes': c}), mr.build({'name': 'Accuracy'})
+  sel = rows[:: max(1, len(rows) // 12)][:12]
+  singles = [(cm_m.evaluate_example({'y': jnp.asarray(np.int32(t))}, jnp.asarray(np.asarray(sc, np.float32))),
+              acc_m.evaluate_example({'y': jnp.asarray(np.int32(t))}, jnp.asarray(np.asarray(sc, np.float32)))) for t, sc in sel]
+  merges = 0
+  for i in range(len(singles)):
+    for j in range(len(singles)):
+      for k3 in (None, i):
+        idx = [i, j] + ([k3] if k3 is not None else [])
+        cmst, acst = singles[idx[0]]
+        for q in idx[1:]:
+          cmst, acst = cmst.merge(singles[q][0]), acst.merge(singles[q][1])
+        mat = np.asarray(cmst.result(), np.float64)
+        want = np.zeros((c, c))
+        for q in idx:
+          want[sel[q][0], mr._argmax(sel[q][1])] += 1
+        require(np.array_equal(mat, want), 'confusion matrices of single examples merged directly do not add up (one count per example)',
+                want.tolist(), mat.tolist(), case={'C': c, 'rows': idx})
+        require(abs(float(np.trace(mat)) / float(mat.sum()) - float(np.asarray(acst.result()))) <= 1e-6, 'trace / total of the merged '
+                'confusion matrix is not the merged accuracy', float(np.asarray(acst.result())), float(np.trace(mat)) / float(mat.sum()),
+                case={'C': c, 'rows': idx})
+        merges += 1
+  return {'evals': len(rows) * 3 + merges, 'nontrivial': True, 'outcome': [float(np.sum(acc[1]))]}
 
 
 def dtypes(case):
@@ -235,6 +260,55 @@ def ce_infinite(case):
       require(bool(np.any(got == np.inf)) and not bool(np.any(np.isnan(got))) and not bool(np.any(got == -np.inf)),
               '%s: a sequence with a probability-0 target token must have infinite loss' % spec['name'], 'inf', got.tolist(),
               case={'spec': spec, 'row': [y, core.jsonable(pred)]})
+      evals += 1
+  # a MASKED position whose scores give a non-finite cross entropy (a -inf logit on the pad label, scores whose gap overflows):
+  # it has weight 0 and contributes exactly 0 - in the single-example statistic itself (accum and weight, evaluated op by op),
+  # in a vmapped pair of examples where the other example has a real token at that position, and in the jitted batch path
+  from fedjax.core import metrics as _metrics
+  masked_rows = [([1, 0], [[0.0, 2.0, 1.0], [ninf, 0.0, 0.0]]), ([0, 2], [[ninf, ninf, 0.0], [0.0, 1.0, 2.0]]),
+                 ([1, 0], [[0.5, 0.0, 1.0], [-3e38, 3e38, 0.0]]), ([0, 0], [[ninf, 0.0, 0.0], [-3e38, 3e38, 1.0]])]
+  other = ([1, 2], [[1.0, 0.0, -1.0], [0.0, 0.5, 1.5]])
+  for y, pred in masked_rows:
+    for spec in ({'name': 'SequenceTokenCrossEntropyLoss', 'masked_target_values': [0]},
+                 {'name': 'SequenceTokenCrossEntropyLoss', 'masked_target_values': [0], 'per_position': True},
+                 {'name': 'SequenceCrossEntropyLoss', 'masked_target_values': [0]}):
+      m = mr.build(spec)
+      nc = {'spec': spec, 'row': [y, core.jsonable(pred)]}
+      p64 = np.asarray(pred, np.float64)
+      tok = []
+      for t, row in zip(y, p64):
+        if t == 0:
+          tok.append(0.0)
+        else:
+          mx = np.max(row)
+          tok.append(float(-(row[t] - mx - np.log(np.sum(np.exp(row - mx))))))
+      wts = [0.0 if t == 0 else 1.0 for t in y]
+      ex = {'y': jnp.asarray(np.asarray(y, np.int32))}
+      st = m.evaluate_example(ex, jnp.asarray(np.asarray(pred, np.float32)))
+      arrs = mr.stat_arrays(st)
+      if spec.get('per_position'):
+        want_acc, want_w = np.asarray(tok), np.asarray(wts)
+      elif spec['name'] == 'SequenceCrossEntropyLoss':
+        want_acc, want_w = np.asarray(sum(tok)), np.asarray(1.0 if any(wts) else 0.0)
+      else:
+        want_acc, want_w = np.asarray(sum(tok)), np.asarray(sum(wts))
+      ga, gw = np.asarray(arrs[1], np.float64), np.asarray(arrs[2], np.float64)
+      require(ga.shape == want_acc.shape and bool(np.all(np.isfinite(ga))) and bool(np.all(np.abs(ga - want_acc) <= 1e-5 * (1 + np.abs(want_acc)))) and
+              bool(np.all(gw == want_w)), '%s: a masked position with a non-finite cross entropy leaks into the single-example statistic' % spec['name'],
+              [want_acc.tolist(), want_w.tolist()], [core.jsonable(ga.tolist()), gw.tolist()], case=nc)
+      # two examples reduced together (un-jitted vmap, then the jitted batch path)
+      ys2 = jnp.asarray(np.asarray([y, other[0]], np.int32))
+      ps2 = jnp.asarray(np.asarray([pred, other[1]], np.float32))
+      import jax
+      red = jax.vmap(m.evaluate_example)({'y': ys2}, ps2).reduce()
+      bat = _metrics.evaluate_batch(m, {'y': ys2}, ps2, jnp.asarray([True, True]))
+      one_other = m.evaluate_example({'y': ys2[1]}, ps2[1])
+      want_res = np.asarray(st.merge(one_other).result(), np.float64)
+      for what, r_ in (('vmap + reduce', red), ('evaluate_batch', bat)):
+        gr = np.asarray(r_.result(), np.float64)
+        require(gr.shape == want_res.shape and bool(np.all(np.isfinite(gr))) and bool(np.all(np.abs(gr - want_res) <= 1e-5 * (1 + np.abs(want_res)))),
+                '%s (%s): a masked non-finite position of one example poisons the result of two examples' % (spec['name'], what),
+                core.jsonable(want_res.tolist()), core.jsonable(gr.tolist()), case=nc)
       evals += 1
   return {'evals': evals, 'nontrivial': True, 'outcome': evals}
 
